@@ -55,6 +55,7 @@ package ratelimiting
 //@ func (*coalescing).handleTimerFired
 //@   tags C09
 //@   requires c != nil && inv(c)
+//@   ensures inv(c)
 //@   ensures [C09.timer.flush] at(U, c.pendingEvents) == 0 && at(U, c.signals) == at(L, c.signals) + (at(L, c.pendingEvents) > 0 ? 1 : 0)
 //@   ensures [C09.timer.closed] at(U, c.hasTimer.v) == 0 && at(U, c.adds) == at(L, c.adds)
 //@   at call Lock#0 label L
@@ -64,6 +65,7 @@ package ratelimiting
 //@ func (*coalescing).handleInputCh
 //@   tags C09
 //@   requires c != nil && inv(c)
+//@   ensures inv(c)
 //@   ensures [C09.input.first] at(L, c.hasTimer.v) == 0 ==> (at(U, c.pendingEvents) == 0 && at(U, c.hasTimer.v) != 0
 //@        && at(U, c.signals) == at(L, c.signals) + (at(L, c.pendingEvents) > 0 ? 1 : 0))
 //@   ensures [C09.input.cap] (at(L, c.hasTimer.v) != 0 && c.maxPendingEvents != nil && at(L, c.pendingEvents) >= *c.maxPendingEvents) ==>
@@ -93,3 +95,16 @@ package ratelimiting
 //@   at before call Wait#0 assert [C09.close.nowaitunderlock] !held(c.lock)
 //@   replay template coalescingclose
 //@   replay val dummy = 0
+
+// Run: the event hand-off goroutines spawned by the handlers must watch the context that Run cancels when Close
+// is called (otherwise Close's wg.Wait never ends while a signal is undelivered): the handlers receive the
+// derived context, not the caller's.
+//@ func (*coalescing).Run
+//@   tags C09
+//@   opt go=ignore
+//@   ghost dctx iface
+//@   requires c != nil && ctx != nil && inv(c)
+//@   loop 0 invariant c == old(c) && nolocks() && inv(c)
+//@   at call WithCancel#0 ghost dctx = res0
+//@   at before call handleInputCh#0 assert [C09.run.ctx.input] arg1 == dctx
+//@   at before call handleTimerFired#0 assert [C09.run.ctx.timer] arg1 == dctx
